@@ -48,7 +48,7 @@ MANIFEST = {
             'retained, masked cells excluded, unaffected variables identical, '
             'dimension and coordinate lengths updated, and that both naming '
             'orders agree for commuting reducers.'
-            ' Also: a mean over masked data along several axes equals the per-axis means in some order of the axes; named reducers along length-1 dimensions of IOAPI files.',
+            ' Also: a mean over masked data along several axes equals the per-axis means in some order of the axes; named reducers along length-1 dimensions of IOAPI files; median (a reducer that is not an array method) through reduce_dim on a masked variable.',
     'note': 'Trusted: z3 (non-linear real arithmetic for var/std/prod), the '
             'shim reductions for masked object arrays (validated per path '
             'against real numpy on a sample model), numpy itself otherwise.',
